@@ -229,7 +229,9 @@ class FileProvider(ContentProvider):
                 raise BlacklistedSpec()
 
         resolved = os.path.realpath(self.path)
-        if not resolved.startswith(os.path.realpath(self.root)):
+        root = os.path.realpath(self.root)
+        # compare whole path components: "/root2/x" is not inside "/root"
+        if resolved != root and not resolved.startswith(os.path.join(root, "")):
             msg = "Relative path points outside the root: %s -> %s."
             raise Exception(msg % (self.path, resolved))
 
